@@ -66,6 +66,26 @@ ReplicaClauses(e) ==
                   /\ r.taken[1] = fp.taken[0] /\ r.taken[2] = fp.taken[1]
                   /\ r.hist = fp.hist /\ r.done = T!P!PDone(fp)>>]
 
+\* C06 over the network: at every decision of the play the set the client's
+\* own replica offered to its playing system is the playable set of the hand
+\* that decides (the seat's own, or dummy's when declarer plays for it), and
+\* the hand the client believes it holds is that hand
+OfferClauses(e) ==
+  IF "offers" \notin DOMAIN e.decs[1] THEN <<>>
+  ELSE [k \in 1..Len(e.decs) |->
+     LET b == e.boards[k]
+         d == e.decs[k]
+         c == T!ContractOf(b, d.calls)
+         bad == IF T!PassedOutC(c) THEN {}
+                ELSE {j \in 1..Len(d.offers) :
+                        LET p == T!PlayAfter(T!InitPlayOf(b, c), d.cards, j - 1)
+                            h == p.hands[d.cards[j].seat]
+                        IN \/ SeqRange(d.offers[j].held) # h
+                           \/ SeqRange(d.offers[j].offered) # T!P!CurrentAvailable(p, h)}
+     IN <<"offered-playable-board" \o ToString(k) \o "@"
+            \o (IF bad = {} THEN "0" ELSE ToString(CHOOSE j \in bad : \A j2 \in bad : j <= j2)),
+          bad = {} /\ Len(d.offers) <= Len(d.cards) + 1>>]
+
 \* the decisions describe complete boards (every auction ended, 52 cards on
 \* every board that was not passed out): only then are the expected streams
 \* defined
@@ -97,6 +117,7 @@ Clauses(e) ==
                                                            ELSE Len(want)), want)
                          IN <<"stream-partial-" \o SeatTag(s - 1) \o "@" \o ToString(d), d = 0>>]
                  ELSE <<>>)
+             \o OfferClauses(e)
         ELSE base
      \o StreamClauses(e, "stream", e.s2c,
                       LAMBDA s : T!ServerStream(s, e.boards, e.decs, e.teams))
@@ -104,6 +125,7 @@ Clauses(e) ==
                       LAMBDA s : T!ClientStream(s, e.boards, e.decs, e.teams))
      \o ItemClauses(e, Len(e.boards))
      \o ReplicaClauses(e)
+     \o OfferClauses(e)
   ELSE IF e.kind = "ready-fault" THEN
      \* growth (extra check X02): a malformed ready-line is answered with one
      \* error and a close, and the session hangs with the log left open - the
